@@ -172,7 +172,21 @@ func genVC(P *Program, C *Contracts, S *Sorts, key string, pure map[*ssa.Functio
 	for _, r := range ct.Rejects {
 		rejectConds = append(rejectConds, ex.def("rejects", "Bool", substSX(r.Term, envPre)))
 	}
-	f.onPanic = func(cond, kind, anchor string, _ *State) {
+	f.onPanic = func(cond, kind, anchor, val string, _ *State) {
+		if ct.PanicValue != nil {
+			// the function's claim about the value of escaping panics, checked at every panic site
+			claim := substSX(ct.PanicValue.Term, func(a string, old bool) (string, bool) {
+				if a == "$pv" {
+					return val, true
+				}
+				return envPre(a, old)
+			})
+			pvt := ct.PanicValue.Tags
+			if len(pvt) == 0 {
+				pvt = ptags
+			}
+			f.oblige("panic_value", kind+"."+anchor, implies(cond, claim), pvt, ct.PanicValue.Src)
+		}
 		if ct.MayPanic {
 			return
 		}
